@@ -186,6 +186,28 @@ func panicOfThread2(c flamego.Context) { sched.Point(); panic("boom-marker-2") }
 //go:noinline
 func panicOfThread3(c flamego.Context) { sched.Point(); panic("boom-marker-3") }
 
+// chunkReader hands out left chunks of eight times its letter; it is a plain io.Reader (no WriteTo).
+type chunkReader struct {
+	letter byte
+	left   int
+}
+
+func (r *chunkReader) Read(p []byte) (int, error) {
+	sched.Point()
+	if r.left == 0 {
+		return 0, io.EOF
+	}
+	r.left--
+	n := 8
+	if len(p) < n {
+		n = len(p)
+	}
+	for i := 0; i < n; i++ {
+		p[i] = r.letter
+	}
+	return n, nil
+}
+
 type parentService struct{ name string }
 
 type scenario struct {
@@ -378,6 +400,17 @@ var scenarios = []scenario{
 			h := hs[t]
 			w.f.Get(fmt.Sprintf("/boom/%d", t), func(c flamego.Context) { sched.Point(); w.own(c) }, h)
 		}
+		return w
+	}},
+	{Name: "bodies-streamed-from-a-reader", Build: func(n int) *world {
+		w := newWorld(planFor(n, func(t int) []reqSpec {
+			return []reqSpec{{"GET", fmt.Sprintf("/stream/%d", t), nil}}
+		}))
+		w.f.Get("/stream/{k}", func(c flamego.Context) {
+			w.own(c)
+			// three chunks of the thread's own letter, the scheduler may switch before every one of them
+			_, _ = io.Copy(c.ResponseWriter(), &chunkReader{letter: byte('a' + c.ParamInt("k")), left: 3})
+		})
 		return w
 	}},
 	{Name: "return-values+fast-path+renderer", Build: func(n int) *world {
